@@ -14,3 +14,700 @@ Section LeaderCmp.
   Definition lecmp (x y : @aind T) : nat :=
     eps_compare ltb sc (dist x) (dist y) (acost x) (acost y).
 End LeaderCmp.
+
+(* ---------- update_particle_best ---------- *)
+Section PBestP.
+  Context {T : Type}.
+  Variable cmp : scost (T:=T) -> scost (T:=T) -> nat.
+
+  (* one particle: the record is replaced by the particle's (costs, vector) unless the verdict of
+     compare(costs, best_cost) is 2 ("best_cost dominates") *)
+  Lemma pbest_step_spec (p : particle (T:=T)) (b : pbest (T:=T)) :
+    (cmp (p_cost p) (fst b) = 2 -> pbest_step cmp p b = b) /\
+    (cmp (p_cost p) (fst b) <> 2 -> pbest_step cmp p b = (p_cost p, p_vec p)).
+  Proof.
+    unfold pbest_step. split; intros E.
+    - rewrite E. reflexivity.
+    - destruct (Nat.eqb (cmp (p_cost p) (fst b)) 2) eqn:F; [apply Nat.eqb_eq in F; contradiction | reflexivity].
+  Qed.
+
+  Lemma set_nth_length {A} (x : A) : forall n l, length (set_nth n x l) = length l.
+  Proof. induction n as [|n IH]; intros [|h t]; cbn; auto. Qed.
+
+  Lemma nth_error_set_nth_same {A} (x : A) : forall n l, n < length l -> nth_error (set_nth n x l) n = Some x.
+  Proof.
+    induction n as [|n IH]; intros [|h t] L; cbn in *; try lia; [reflexivity|]. apply IH. lia.
+  Qed.
+
+  Lemma nth_error_set_nth_other {A} (x : A) : forall n l k, n <> k -> nth_error (set_nth n x l) k = nth_error l k.
+  Proof.
+    induction n as [|n IH]; intros [|h t] [|k] N; cbn; try reflexivity; try congruence.
+    apply IH. congruence.
+  Qed.
+
+  (* the whole sweep, shared feature dicts included: the record of dict k is the fold of the
+     one-particle rule over the particles that use dict k, in population order *)
+  Definition users (k : nat) (pop : list (particle (T:=T))) : list (particle (T:=T)) :=
+    filter (fun p => Nat.eqb (p_feat p) k) pop.
+
+  Theorem pbest_sweep : forall pop store,
+    (forall p, In p pop -> p_feat p < length store) ->
+    exists store', update_particle_best cmp pop store = Some store' /\ length store' = length store /\
+      forall k b, nth_error store k = Some b ->
+        nth_error store' k = Some (fold_left (fun b p => pbest_step cmp p b) (users k pop) b).
+  Proof.
+    induction pop as [|p pop IH]; intros store R.
+    - exists store. cbn. repeat split; auto.
+    - cbn [update_particle_best].
+      assert (Rp : p_feat p < length store) by (apply R; left; reflexivity).
+      destruct (nth_error store (p_feat p)) as [b0|] eqn:E0; [|apply nth_error_None in E0; lia].
+      destruct (IH (set_nth (p_feat p) (pbest_step cmp p b0) store)) as (s' & E & Ln & Hk).
+      { intros q Hq. rewrite set_nth_length. apply R. right. exact Hq. }
+      exists s'. split; [exact E|]. split; [rewrite Ln; apply set_nth_length|].
+      intros k b Eb. unfold users. cbn [filter].
+      destruct (Nat.eqb (p_feat p) k) eqn:Ek.
+      + apply Nat.eqb_eq in Ek. subst k. rewrite E0 in Eb. injection Eb as <-. cbn [fold_left].
+        apply Hk. apply nth_error_set_nth_same. exact Rp.
+      + apply Nat.eqb_neq in Ek. apply Hk. rewrite nth_error_set_nth_other by exact Ek. exact Eb.
+  Qed.
+End PBestP.
+
+Section PBestPareto.
+  Context {T : Type} (ltb : T -> T -> bool) (H : SWO ltb).
+
+  (* with the Pareto comparator: kept exactly when the old best dominates the new position *)
+  Theorem pbest_pareto_verdict (p : particle (T:=T)) (b : pbest (T:=T)) :
+    (pareto_compare ltb (fst b) (p_cost p) = 1 -> pbest_step (pareto_compare ltb) p b = b) /\
+    (pareto_compare ltb (fst b) (p_cost p) <> 1 -> pbest_step (pareto_compare ltb) p b = (p_cost p, p_vec p)).
+  Proof.
+    pose proof (pareto_antisym ltb H (p_cost p) (fst b)) as A.
+    pose proof (pareto_range ltb H (p_cost p) (fst b)) as R.
+    destruct (pbest_step_spec (pareto_compare ltb) p b) as [S1 S2].
+    split; intros E.
+    - apply S1. rewrite A in E. destruct (pareto_compare ltb (p_cost p) (fst b)) as [|[|[|n]]]; cbn in E; try discriminate; try lia.
+    - apply S2. intros F. apply E. rewrite A, F. reflexivity.
+  Qed.
+
+  (* at equal feasibility marker, in terms of the textbook definition of dominance *)
+  Theorem pbest_pareto_dominates (p : particle (T:=T)) pc bc m bv :
+    p_cost p = (pc, m) -> length pc = length bc ->
+    (dominates ltb bc pc -> pbest_step (pareto_compare ltb) p ((bc, m), bv) = ((bc, m), bv)) /\
+    (~ dominates ltb bc pc -> pbest_step (pareto_compare ltb) p ((bc, m), bv) = (p_cost p, p_vec p)).
+  Proof.
+    intros Ec L. destruct (pbest_pareto_verdict p ((bc, m), bv)) as [S1 S2]. cbn [fst] in S1, S2. rewrite Ec in S1, S2.
+    destruct (pareto_spec ltb H bc pc m (eq_sym L)) as (P1 & _ & _).
+    split; intros D.
+    - apply S1. apply P1. exact D.
+    - rewrite Ec. apply S2. intros F. apply D. apply P1. exact F.
+  Qed.
+End PBestPareto.
+
+(* ---------- speed_constriction / update_velocity ---------- *)
+Section VelocityP.
+  Context {T : Type} (ltb : T -> T -> bool) (HO : SWO ltb).
+  Variables (add sub mul div : T -> T -> T) (neg : T -> T) (two : T).
+  Local Notation half_range := (half_range sub div two).
+  Local Notation speed_constriction := (speed_constriction ltb sub div neg two).
+  Local Notation velocity_coords := (velocity_coords ltb add sub mul div neg two).
+
+  (* -delta <= v <= delta, in the model's order *)
+  Definition clamped (p : T * T) (v : T) : Prop :=
+    let d := half_range (snd p) (fst p) in ltb v (neg d) = false /\ ltb d v = false.
+  (* the computed half range is not below its own negation (true as soon as it is >= 0) *)
+  Definition delta_ok (p : T * T) : Prop :=
+    let d := half_range (snd p) (fst p) in ltb d (neg d) = false.
+
+  (* complete case analysis, for every input velocity *)
+  Theorem speed_constriction_spec v ub lb :
+    let d := half_range ub lb in
+    let r := speed_constriction v ub lb in
+    ltb d (neg d) = false ->
+    (ltb r (neg d) = false /\ ltb d r = false) /\
+    (ltb d v = true -> r = d) /\
+    (ltb v (neg d) = true -> r = neg d) /\
+    (ltb d v = false -> ltb v (neg d) = false -> r = v).
+  Proof.
+    cbn zeta. intros Hd. unfold Swarm.speed_constriction, pmin, pmax.
+    destruct (ltb (half_range ub lb) v) eqn:E1.
+    - rewrite Hd. repeat split; try reflexivity; try discriminate.
+      + exact Hd.
+      + apply (lt_irrefl _ HO).
+      + intros E2. exfalso.
+        (* v < -d and not (d < -d) give v < d, against d < v *)
+        assert (ltb v (half_range ub lb) = true) as E3.
+        { apply (lt_le_trans ltb HO v (neg (half_range ub lb)) (half_range ub lb) E2).
+          unfold leb. rewrite Hd. reflexivity. }
+        rewrite (lt_asym ltb HO _ _ E1) in E3. discriminate.
+    - destruct (ltb v (neg (half_range ub lb))) eqn:E2.
+      + repeat split; try reflexivity; try discriminate.
+        * apply (lt_irrefl _ HO).
+        * exact Hd.
+      + repeat split; try reflexivity; try discriminate; assumption.
+  Qed.
+
+  Corollary speed_constriction_clamped v lb ub : delta_ok (lb, ub) -> clamped (lb, ub) (speed_constriction v ub lb).
+  Proof. intros Hd. apply (speed_constriction_spec v ub lb Hd). Qed.
+
+  (* every component of the new velocity of a particle, whatever the draws, the position, the
+     personal best and the leader are *)
+  Theorem velocity_coords_clamped : forall k d xs ws params bs gs vs,
+    Forall delta_ok params ->
+    velocity_coords k d ws params xs bs gs = Some vs ->
+    length vs = length xs /\ Forall2 clamped (firstn (length xs) params) vs.
+  Proof.
+    induction xs as [|x xs IH]; intros ws params bs gs vs W E.
+    - cbn in E. destruct ws; [|discriminate]. injection E as <-. split; [reflexivity | constructor].
+    - cbn [Swarm.velocity_coords] in E.
+      destruct params as [|[lb ub] ps]; [discriminate|].
+      destruct bs as [|b bs]; [discriminate|]. destruct gs as [|g gs]; [discriminate|].
+      destruct (next_weight k d ws) as [[w ws']|]; [|discriminate].
+      destruct (velocity_coords k d ws' ps xs bs gs) as [vs'|] eqn:E'; [|discriminate].
+      cbn in E. injection E as <-. inversion W as [|? ? Wp W']; subst.
+      destruct (IH ws' ps bs gs vs' W' E') as [L F].
+      split; [cbn; congruence|]. cbn [length firstn]. constructor; [|exact F].
+      apply speed_constriction_clamped. exact Wp.
+  Qed.
+
+  Lemma all_some_spec {A} : forall (l : list (option A)) r, all_some l = Some r -> l = map Some r.
+  Proof.
+    induction l as [|[a|] l IH]; intros r E; cbn in E; try discriminate.
+    - injection E as <-. reflexivity.
+    - destruct (all_some l) as [r'|]; [|discriminate]. injection E as <-. cbn. f_equal. apply IH. reflexivity.
+  Qed.
+
+  Theorem update_velocity_clamped k params swarm vss :
+    Forall delta_ok params ->
+    update_velocity ltb add sub mul div neg two k params swarm = Some vss ->
+    Forall2 (fun p vs => length vs = length (v_vec p) /\
+                         Forall2 clamped (firstn (length (v_vec p)) params) vs) swarm vss.
+  Proof.
+    intros W. unfold update_velocity. intros E. apply all_some_spec in E.
+    revert vss E. induction swarm as [|p swarm IH]; intros [|vs vss] E; cbn in E; try discriminate; constructor.
+    - injection E as E1 _. unfold velocity_particle in E1. eapply velocity_coords_clamped; eauto.
+    - apply IH. injection E as _ E2. exact E2.
+  Qed.
+End VelocityP.
+
+(* ---------- update_position ---------- *)
+Section PositionP.
+  Context {T : Type} (ltb : T -> T -> bool) (HO : SWO ltb).
+  Variable add : T -> T -> T.
+  Variable bounce : T -> T.
+
+  (* a coordinate that leaves the box ends on the violated bound with its velocity bounced *)
+  Lemma position_bounced lb ub x v : ltb ub lb = false ->
+    ltb ub (add x v) = true \/ ltb (add x v) lb = true ->
+    snd (position_coord ltb add bounce lb ub x v) = bounce v /\
+    (fst (position_coord ltb add bounce lb ub x v) = ub \/ fst (position_coord ltb add bounce lb ub x v) = lb).
+  Proof.
+    intros Hb Hout. destruct (position_coord_spec ltb HO add bounce lb ub x v Hb) as (_ & Hu & Hl & _).
+    destruct Hout as [E|E]; [rewrite (Hu E) | rewrite (Hl E)]; cbn; auto.
+  Qed.
+
+  Theorem update_position_in_box params swarm res :
+    Forall (wf ltb) params -> Forall (fun p => length (fst p) = length params) swarm ->
+    update_position ltb add bounce params swarm = Some res ->
+    Forall2 (fun p r => in_box ltb params (fst r) /\ length (snd r) = length (snd p)) swarm res.
+  Proof.
+    intros W. unfold update_position. intros L E. apply all_some_spec in E.
+    revert res E. induction swarm as [|p swarm IH]; intros [|r res] E; cbn in E; try discriminate; constructor.
+    - injection E as E1 _. inversion L as [|? ? Lp _]; subst. destruct r as [xs' vs'].
+      eapply (position_in_box ltb HO); eauto.
+    - inversion L; subst. apply IH; [assumption|]. injection E as _ E2. exact E2.
+  Qed.
+End PositionP.
+
+(* ---------- leaders archive: any comparator satisfying the archive laws (C04) ---------- *)
+Section PairwiseX.
+  Context {A : Type} (R : A -> A -> Prop).
+
+  Lemma pairwise_forall l : pairwise R l ->
+    forall l1 x l2 y l3, l = l1 ++ x :: l2 ++ y :: l3 -> R x y.
+  Proof.
+    induction l as [|a l IH]; intros P l1 x l2 y l3 E.
+    - destruct l1; discriminate.
+    - destruct P as [F P]. destruct l1 as [|b l1]; cbn in E; injection E as -> E.
+      + rewrite Forall_forall in F. apply F. rewrite E. apply in_or_app. right. left. reflexivity.
+      + eapply IH; eauto.
+  Qed.
+
+  Lemma pairwise_in l : pairwise R l -> (forall x y, R x y -> R y x) ->
+    forall x y, In x l -> In y l -> x = y \/ R x y.
+  Proof.
+    induction l as [|a l IH]; intros P Sy x y Hx Hy; [contradiction|].
+    destruct P as [F P]. rewrite Forall_forall in F.
+    destruct Hx as [<-|Hx], Hy as [<-|Hy]; auto.
+  Qed.
+
+  (* a symmetric pairwise relation is invariant under permutation *)
+  Lemma pairwise_perm l l' : (forall x y, R x y -> R y x) -> Permutation l l' -> pairwise R l -> pairwise R l'.
+  Proof.
+    intros Sy Pm. induction Pm as [|a l l' Pm IH|a b l|l l' l'' P1 IH1 P2 IH2]; intros P.
+    - exact P.
+    - destruct P as [F P]. split; [|auto]. eapply Permutation_Forall; eauto.
+    - destruct P as [F1 [F2 P]]. inversion F1 as [|? ? Rab F1']; subst.
+      split; [constructor; [apply Sy; exact Rab | exact F2]|]. split; assumption.
+    - auto.
+  Qed.
+
+  Lemma pairwise_firstn : forall n l, pairwise R l -> pairwise R (firstn n l).
+  Proof.
+    induction n as [|n IH]; intros [|a l] P; cbn; auto.
+    destruct P as [F P]. split; [|auto].
+    apply Forall_forall. intros z Hz. rewrite Forall_forall in F. apply F.
+    rewrite <- (firstn_skipn n l). apply in_or_app. left. exact Hz.
+  Qed.
+End PairwiseX.
+
+Section LeadersP.
+  Context {C K : Type} (cmp : C -> C -> nat) (ceq : C -> C -> bool) (key_leb : K -> C -> C -> bool).
+  Variables (dom : C -> C -> bool) (wf : C -> Prop).
+  Hypothesis L : ArchLaws cmp ceq dom wf.
+  Local Notation Inv := (Inv ceq dom wf).
+  Local Notation generation := (generation cmp ceq key_leb).
+  Local Notation generations := (generations cmp ceq key_leb).
+  Local Notation leaders_trace := (leaders_trace cmp ceq key_leb).
+
+  Lemma Inv_nil : Inv [].
+  Proof. split; [constructor | exact I]. Qed.
+
+  (* non-domination and distinctness are symmetric on well-formed members, so the invariant
+     survives sorting, reversing and slicing *)
+  Lemma Inv_sub a a' n : Permutation a a' -> Inv a -> Inv (firstn n a').
+  Proof.
+    intros Pm [W P]. split.
+    - apply Forall_forall. intros z Hz. rewrite Forall_forall in W. apply W.
+      apply (Permutation_in _ (Permutation_sym Pm)). rewrite <- (firstn_skipn n a'). apply in_or_app. left. exact Hz.
+    - (* go through the relation restricted to well-formed elements, which is symmetric *)
+      set (R := fun y z => wf y /\ wf z /\ indep ceq dom y z).
+      assert (PR : pairwise R a).
+      { clear Pm. induction a as [|y a IH]; [exact I|]. destruct P as [F P]. inversion W as [|? ? Wy Wa]; subst.
+        split; [|apply IH; assumption].
+        rewrite Forall_forall in *. intros z Hz. unfold R. auto. }
+      assert (Sy : forall y z, R y z -> R z y).
+      { intros y z (Wy & Wz & D1 & D2 & E). unfold R, indep. repeat split; auto.
+        rewrite (al_ceq_sym _ _ _ _ L z y Wz Wy). exact E. }
+      pose proof (pairwise_firstn R n a' (pairwise_perm R a a' Sy Pm PR)) as PR'.
+      revert PR'. generalize (firstn n a'). induction l as [|y l IH]; cbn; [auto|].
+      intros [F P']. split; [|auto]. eapply Forall_impl; [|exact F]. intros z (_ & _ & D). exact D.
+  Qed.
+
+  Lemma truncate_Inv tbl a size larger : Inv a -> Inv (archive_truncate (key_leb tbl) a size larger).
+  Proof.
+    intros I. unfold archive_truncate. apply (Inv_sub a); [|exact I].
+    destruct larger.
+    - rewrite <- Permutation_rev. symmetry. apply ssort_perm.
+    - symmetry. apply ssort_perm.
+  Qed.
+
+  Lemma adds_Inv xs a : Inv a -> Forall wf xs -> Inv (archive_adds cmp ceq a xs).
+  Proof.
+    intros I Wxs. pose proof I as [W _].
+    apply (adds_inv cmp ceq dom wf L xs a a I Wxs W (incl_refl a)).
+    intros w Hw. exists w. split; [exact Hw|]. right.
+    apply (al_ceq_refl _ _ _ _ L). rewrite Forall_forall in W. auto.
+  Qed.
+
+  Lemma truncate_length tbl (a : list C) size larger : length (archive_truncate (key_leb tbl) a size larger) <= size.
+  Proof. unfold archive_truncate. rewrite firstn_length. apply Nat.le_min_l. Qed.
+
+  (* one generation (update_global_best) *)
+  Theorem generation_inv size a g : Inv a -> Forall wf (fst g) ->
+    Inv (generation size a g) /\ length (generation size a g) <= size.
+  Proof.
+    intros I W. unfold Swarm.generation. split; [|apply truncate_length].
+    apply truncate_Inv. apply adds_Inv; assumption.
+  Qed.
+
+  Definition offers_wf (gs : list (list C * K)) : Prop := Forall (fun g => Forall wf (fst g)) gs.
+
+  (* any sequence of generations, from any archive satisfying the invariant *)
+  Theorem generations_inv size : forall gs a, Inv a -> length a <= size -> offers_wf gs ->
+    Inv (generations size a gs) /\ length (generations size a gs) <= size.
+  Proof.
+    induction gs as [|g gs IH]; intros a I Ln W; cbn; [auto|].
+    inversion W as [|? ? Wg W']; subst.
+    destruct (generation_inv size a g I Wg) as [I' Ln']. apply IH; assumption.
+  Qed.
+
+  (* ... and after every generation on the way *)
+  Theorem leaders_trace_inv size : forall gs a, Inv a -> offers_wf gs ->
+    Forall (fun a' => Inv a' /\ length a' <= size) (leaders_trace size a gs).
+  Proof.
+    induction gs as [|g gs IH]; intros a I W; cbn; [constructor|].
+    inversion W as [|? ? Wg W']; subst.
+    destruct (generation_inv size a g I Wg) as [I' Ln']. constructor; [split; assumption|]. apply IH; assumption.
+  Qed.
+
+  Lemma Inv_nondominated a : Inv a -> pairwise (fun y z => dom y z = false /\ dom z y = false) a.
+  Proof.
+    intros [_ P]. revert P. induction a as [|y l IH]; cbn; [tauto|].
+    intros (F & P). split; [|auto]. eapply Forall_impl; [|exact F]. intros z (A & B & _). auto.
+  Qed.
+
+End LeadersP.
+
+(* ---------- leaders archive: the epsilon comparator the code actually installs ---------- *)
+Section LeadersEps.
+  Context {T : Type} (ltb : T -> T -> bool) (H : SWO ltb).
+  Variable m : nat.                            (* number of objectives *)
+  Variable sc : nat -> T -> T.
+  Variable dist : @aind T -> T.
+  (* the scaling never reverses an order: not (a < b) implies not (a/eps < b/eps) *)
+  Hypothesis H_sc_mono : forall i a b, ltb a b = false -> ltb (sc i a) (sc i b) = false.
+  Local Notation lecmp := (lecmp ltb sc dist).
+  Local Notation better := (better ltb).
+  Local Notation list_eqv := (list_eqv ltb).
+
+  Fixpoint scaled (i : nat) (p : list T) : list T :=
+    match p with [] => [] | a :: p' => sc i a :: scaled (S i) p' end.
+  Lemma scaled_length : forall p i, length (scaled i p) = length p.
+  Proof. induction p; intros; cbn; auto. Qed.
+  Lemma ebetter_scaled : forall p q i, ebetter ltb sc i p q = better (scaled i p) (scaled i q).
+  Proof. induction p as [|a p IH]; intros [|b q] i; cbn; try reflexivity. rewrite IH. reflexivity. Qed.
+
+  Definition mag (x : @aind T) : Z := Z.abs (snd (acost x)).
+  Definition sv (x : @aind T) : list T := scaled 0 (fst (acost x)).
+
+  (* the comparator is lexicographic: |marker|, Pareto order of the scaled vectors, tie-break sum *)
+  Lemma lecmp_unfold x y : lecmp x y =
+    if (mag x <? mag y)%Z then 1 else if (mag y <? mag x)%Z then 2
+    else if better (sv x) (sv y) && better (sv y) (sv x) then 0
+    else if better (sv x) (sv y) then 1 else if better (sv y) (sv x) then 2
+    else if ltb (dist x) (dist y) then 1 else 2.
+  Proof.
+    unfold SwarmProofs.lecmp, eps_compare, mag, sv. rewrite (marker_verdict_lex).
+    destruct (Z.abs (snd (acost x)) <? Z.abs (snd (acost y)))%Z; [reflexivity|].
+    destruct (Z.abs (snd (acost y)) <? Z.abs (snd (acost x)))%Z; [reflexivity|].
+    rewrite (escan_spec ltb H) by reflexivity. cbn [orb]. rewrite !ebetter_scaled.
+    destruct (better (scaled 0 (fst (acost x))) (scaled 0 (fst (acost y)))),
+             (better (scaled 0 (fst (acost y))) (scaled 0 (fst (acost x)))); reflexivity.
+  Qed.
+
+  Definition ledom (x y : @aind T) : bool := Nat.eqb (lecmp x y) 1.
+  (* "same class": same |marker|, scaled vectors equal coordinate by coordinate, equal tie-break sums *)
+  Definition leceq (x y : @aind T) : bool :=
+    Z.eqb (mag x) (mag y) && list_eqv (sv x) (sv y) && eqv ltb (dist x) (dist y).
+
+  Lemma eqv_nobetter p q : list_eqv p q = true -> better p q = false /\ better q p = false.
+  Proof.
+    intros E. split.
+    - rewrite (better_eqv_l ltb H p q q E). apply (better_irrefl ltb H).
+    - rewrite (better_eqv_r ltb H p q q E). apply (better_irrefl ltb H).
+  Qed.
+  Lemma nobetter_eqv : forall p q : list T, length p = length q ->
+    better p q = false -> better q p = false -> list_eqv p q = true.
+  Proof.
+    induction p as [|a p IH]; intros [|b q] Ln B1 B2; cbn in *; try discriminate; [reflexivity|].
+    apply orb_false_elim in B1 as [A1 A2]. apply orb_false_elim in B2 as [A3 A4].
+    unfold eqv. rewrite A1, A3. cbn. apply IH; auto.
+  Qed.
+  Lemma sv_length x : awf m x -> length (sv x) = m.
+  Proof. unfold awf, sv. rewrite scaled_length. auto. Qed.
+
+  Lemma lecmp_eqv_l x x' y : leceq x x' = true -> lecmp x y = lecmp x' y.
+  Proof.
+    unfold leceq. rewrite !andb_true_iff, Z.eqb_eq. intros [[E1 E2] E3]. rewrite !lecmp_unfold, E1.
+    rewrite (better_eqv_l ltb H _ _ (sv y) E2), (better_eqv_r ltb H _ _ (sv y) E2), (lt_eqv_l ltb H _ _ (dist y) E3).
+    reflexivity.
+  Qed.
+  Lemma lecmp_eqv_r x y y' : leceq y y' = true -> lecmp x y = lecmp x y'.
+  Proof.
+    unfold leceq. rewrite !andb_true_iff, Z.eqb_eq. intros [[E1 E2] E3]. rewrite !lecmp_unfold, E1.
+    rewrite (better_eqv_l ltb H _ _ (sv x) E2), (better_eqv_r ltb H _ _ (sv x) E2), (lt_eqv_r ltb H _ _ (dist x) E3).
+    reflexivity.
+  Qed.
+
+  Lemma leceq_refl x : leceq x x = true.
+  Proof. unfold leceq. rewrite Z.eqb_refl, (list_eqv_refl ltb H), (eqv_refl ltb H). reflexivity. Qed.
+  Lemma leceq_sym x y : leceq x y = leceq y x.
+  Proof. unfold leceq. rewrite Z.eqb_sym, (list_eqv_sym ltb), (eqv_sym ltb). reflexivity. Qed.
+  Lemma leceq_trans x y z : leceq x y = true -> leceq y z = true -> leceq x z = true.
+  Proof.
+    unfold leceq. rewrite !andb_true_iff, !Z.eqb_eq. intros [[A1 A2] A3] [[B1 B2] B3].
+    repeat split; [congruence | eapply (list_eqv_trans ltb H); eauto | eapply (eqv_trans ltb H); eauto].
+  Qed.
+
+  (* strict part of the lexicographic order *)
+  Definition PD (p q : list T) : Prop := better p q = true /\ better q p = false.
+  Definition NB (p q : list T) : Prop := better p q = false /\ better q p = false.
+  Lemma ledom_iff x y : ledom x y = true <->
+    (mag x < mag y)%Z \/ (mag x = mag y /\ (PD (sv x) (sv y) \/ (NB (sv x) (sv y) /\ ltb (dist x) (dist y) = true))).
+  Proof.
+    unfold ledom, PD, NB. rewrite Nat.eqb_eq, lecmp_unfold.
+    destruct (Z.ltb_spec (mag x) (mag y)) as [A|A]; [split; auto|].
+    destruct (Z.ltb_spec (mag y) (mag x)) as [B|B].
+    { split; [discriminate|]. intros [C|[C _]]; lia. }
+    assert (E : mag x = mag y) by lia.
+    destruct (better (sv x) (sv y)) eqn:B1, (better (sv y) (sv x)) eqn:B2; cbn.
+    - split; [discriminate|]. intros [C|[_ [[_ C]|[[C _] _]]]]; try lia; discriminate.
+    - split; [intros _; right; auto|reflexivity].
+    - split; [discriminate|]. intros [C|[_ [[C _]|[[_ C] _]]]]; try lia; discriminate.
+    - destruct (ltb (dist x) (dist y)) eqn:D.
+      + split; [intros _; right; split; [exact E|right; auto]|reflexivity].
+      + split; [discriminate|]. intros [C|[_ [[C _]|[_ C]]]]; try lia; discriminate.
+  Qed.
+
+  Lemma PD_trans p q r : length p = length q -> length q = length r -> PD p q -> PD q r -> PD p r.
+  Proof.
+    intros L1 L2 [A B] [C D]. split.
+    - apply (better_weak_trans ltb H p q r L1 L2 B D A).
+    - apply (better_trans ltb H p q r L1 L2 B D).
+  Qed.
+  Lemma PD_NB p q r : length q = length r -> PD p q -> NB q r -> PD p r.
+  Proof.
+    intros L2 [A B] [C D]. pose proof (nobetter_eqv q r L2 C D) as E. unfold PD.
+    rewrite <- (better_eqv_r ltb H q r p E), <- (better_eqv_l ltb H q r p E). auto.
+  Qed.
+  Lemma NB_PD p q r : length p = length q -> NB p q -> PD q r -> PD p r.
+  Proof.
+    intros L1 [A B] [C D]. pose proof (nobetter_eqv p q L1 A B) as E. unfold PD.
+    rewrite (better_eqv_l ltb H p q r E), (better_eqv_r ltb H p q r E). auto.
+  Qed.
+  Lemma NB_trans p q r : length p = length q -> length q = length r -> NB p q -> NB q r -> NB p r.
+  Proof.
+    intros L1 L2 [A B] [C D]. apply eqv_nobetter.
+    eapply (list_eqv_trans ltb H); [apply nobetter_eqv; eauto | apply nobetter_eqv; eauto].
+  Qed.
+
+  Lemma ledom_trans x y z : awf m x -> awf m y -> awf m z ->
+    ledom x y = true -> ledom y z = true -> ledom x z = true.
+  Proof.
+    intros Wx Wy Wz. rewrite !ledom_iff.
+    pose proof (sv_length x Wx) as Lx. pose proof (sv_length y Wy) as Ly. pose proof (sv_length z Wz) as Lz.
+    assert (L1 : length (sv x) = length (sv y)) by congruence.
+    assert (L2 : length (sv y) = length (sv z)) by congruence.
+    intros [A|[A A']] [B|[B B']]; try (left; lia).
+    right. split; [congruence|].
+    destruct A' as [A'|[A' A'']], B' as [B'|[B' B'']].
+    - left. eapply PD_trans; eauto.
+    - left. eapply PD_NB; eauto.
+    - left. eapply NB_PD; eauto.
+    - right. split; [eapply NB_trans; eauto | eapply (lt_trans _ H); eauto].
+  Qed.
+
+  Theorem eps_leader_laws : ArchLaws lecmp leceq ledom (awf m).
+  Proof.
+    constructor.
+    - intros x _. unfold ledom. rewrite lecmp_unfold, Z.ltb_irrefl, (better_irrefl ltb H), (lt_irrefl _ H). reflexivity.
+    - exact ledom_trans.
+    - intros x _. apply leceq_refl.
+    - intros x y _ _. apply leceq_sym.
+    - intros x y z _ _ _. apply leceq_trans.
+    - intros x x' y _ _ _ E. unfold ledom. rewrite (lecmp_eqv_l x x' y E). reflexivity.
+    - intros x y y' _ _ _ E. unfold ledom. rewrite (lecmp_eqv_r x y y' E). reflexivity.
+    - intros x y _ _. reflexivity.
+    - intros x y Wx Wy. unfold stops, ledom. rewrite (lecmp_unfold x y), (lecmp_unfold y x). unfold leceq.
+      destruct (Z.ltb_spec (mag x) (mag y)) as [A|A].
+      { assert ((mag y <? mag x)%Z = false) as -> by (apply Z.ltb_ge; lia).
+        assert ((mag x =? mag y)%Z = false) as -> by (apply Z.eqb_neq; lia). reflexivity. }
+      destruct (Z.ltb_spec (mag y) (mag x)) as [B|B]; [reflexivity|].
+      assert ((mag x =? mag y)%Z = true) as -> by (apply Z.eqb_eq; lia).
+      destruct (better (sv x) (sv y)) eqn:B1, (better (sv y) (sv x)) eqn:B2; cbn [andb orb Nat.eqb].
+      + reflexivity.
+      + destruct (list_eqv (sv x) (sv y)) eqn:E; [|reflexivity].
+        destruct (eqv_nobetter _ _ E). congruence.
+      + reflexivity.
+      + assert (E : list_eqv (sv x) (sv y) = true).
+        { apply nobetter_eqv; auto. rewrite (sv_length x Wx), (sv_length y Wy). reflexivity. }
+        rewrite E. unfold eqv. cbn [andb].
+        destruct (ltb (dist x) (dist y)) eqn:D1.
+        * rewrite (lt_asym ltb H _ _ D1). reflexivity.
+        * destruct (ltb (dist y) (dist x)); reflexivity.
+  Qed.
+
+  (* The archive's `is_contained` test (costs_signed == costs_signed, Python list equality) is only
+     reached on verdict 0, where neither it nor leceq can hold: the two give the same archive. *)
+  Lemma sc_eqv i a b : eqv ltb a b = true -> eqv ltb (sc i a) (sc i b) = true.
+  Proof.
+    unfold eqv. rewrite !andb_true_iff, !negb_true_iff. intros [A B]. split; apply H_sc_mono; assumption.
+  Qed.
+  Lemma scaled_eqv : forall p q i, list_eqv p q = true -> list_eqv (scaled i p) (scaled i q) = true.
+  Proof.
+    induction p as [|a p IH]; intros [|b q] i E; cbn in *; try discriminate; [reflexivity|].
+    apply andb_true_iff in E as [E1 E2]. rewrite (sc_eqv i a b E1), (IH q (S i) E2). reflexivity.
+  Qed.
+  Lemma scaled_better : forall p q i, better (scaled i p) (scaled i q) = true -> better p q = true.
+  Proof.
+    induction p as [|a p IH]; intros [|b q] i E; cbn in *; try discriminate.
+    apply orb_true_iff in E as [E|E].
+    - destruct (ltb a b) eqn:F; [reflexivity|]. rewrite (H_sc_mono i a b F) in E. discriminate.
+    - rewrite (IH q (S i) E). apply orb_true_r.
+  Qed.
+
+  Lemma ceq_dead x y : lecmp x y = 0 -> aceq ltb x y = leceq x y.
+  Proof.
+    rewrite lecmp_unfold.
+    destruct (mag x <? mag y)%Z; [discriminate|]. destruct (mag y <? mag x)%Z; [discriminate|].
+    destruct (better (sv x) (sv y)) eqn:B1, (better (sv y) (sv x)) eqn:B2; cbn [andb]; try discriminate.
+    - intros _. unfold aceq, leceq.
+      destruct (list_eqv (fst (acost x)) (fst (acost y))) eqn:E.
+      + pose proof (scaled_eqv _ _ 0 E) as E'. destruct (eqv_nobetter _ _ E'). unfold sv in B1. congruence.
+      + destruct (list_eqv (sv x) (sv y)) eqn:E'.
+        * destruct (eqv_nobetter _ _ E'). congruence.
+        * rewrite andb_false_r. reflexivity.
+    - destruct (ltb (dist x) (dist y)); discriminate.
+  Qed.
+
+  Lemma add_loop_ceq_ext (cmp : @aind T -> @aind T -> nat) (c1 c2 : @aind T -> @aind T -> bool) x :
+    forall snap index deleted live,
+      (forall y, In y snap -> cmp x y = 0 -> c1 x y = c2 x y) ->
+      add_loop cmp c1 x snap index deleted live = add_loop cmp c2 x snap index deleted live.
+  Proof.
+    induction snap as [|y snap IH]; intros index deleted live E; cbn; [reflexivity|].
+    assert (E' : forall z, In z snap -> cmp x z = 0 -> c1 x z = c2 x z) by (intros; apply E; [right|]; assumption).
+    destruct (cmp x y) as [|[|[|n]]] eqn:F; auto.
+    rewrite (E y (or_introl eq_refl) F). destruct (c2 x y); auto.
+  Qed.
+
+  Lemma archive_add_ceq a x : archive_add lecmp (aceq ltb) a x = archive_add lecmp leceq a x.
+  Proof.
+    unfold archive_add. destruct a as [|y a]; [reflexivity|].
+    rewrite (add_loop_ceq_ext lecmp (aceq ltb) leceq x (y :: a) 0 0 (y :: a)); [reflexivity|].
+    intros z _ E. apply ceq_dead. exact E.
+  Qed.
+  Lemma archive_adds_ceq : forall xs a, archive_adds lecmp (aceq ltb) a xs = archive_adds lecmp leceq a xs.
+  Proof.
+    unfold archive_adds. induction xs as [|x xs IH]; intros a; cbn; [reflexivity|].
+    rewrite archive_add_ceq. apply IH.
+  Qed.
+
+  Context {K : Type} (key_leb : K -> @aind T -> @aind T -> bool).
+
+  Lemma leaders_trace_ceq size : forall gs a,
+    leaders_trace lecmp (aceq ltb) key_leb size a gs = leaders_trace lecmp leceq key_leb size a gs.
+  Proof.
+    induction gs as [|g gs IH]; intros a; cbn; [reflexivity|].
+    unfold generation. rewrite archive_adds_ceq. f_equal. apply IH.
+  Qed.
+
+  (* members that are independent for the epsilon order are incomparable for Pareto dominance *)
+  Lemma indep_pareto y z : awf m y -> awf m z -> indep leceq ledom y z ->
+    pareto_compare ltb (acost y) (acost z) = 0.
+  Proof.
+    intros Wy Wz (D1 & D2 & E). unfold ledom in D1, D2. apply Nat.eqb_neq in D1, D2.
+    rewrite lecmp_unfold in D1. rewrite lecmp_unfold in D2. unfold leceq in E.
+    destruct y as [i [p pm]], z as [j [q qm]].
+    unfold mag, sv in *. cbn [acost fst snd] in *. rewrite (pareto_lex ltb).
+    destruct (Z.ltb_spec (Z.abs pm) (Z.abs qm)) as [A|A]; [congruence|].
+    destruct (Z.ltb_spec (Z.abs qm) (Z.abs pm)) as [B|B]; [congruence|].
+    assert ((Z.abs pm =? Z.abs qm)%Z = true) as Em by (apply Z.eqb_eq; lia). rewrite Em in E.
+    destruct (better (scaled 0 p) (scaled 0 q)) eqn:B1, (better (scaled 0 q) (scaled 0 p)) eqn:B2;
+      cbn [andb] in D1, D2; try congruence.
+    - rewrite (cmp0_spec ltb H), (scaled_better _ _ _ B1), (scaled_better _ _ _ B2). reflexivity.
+    - exfalso. assert (El : list_eqv (scaled 0 p) (scaled 0 q) = true).
+      { apply nobetter_eqv; auto. rewrite !scaled_length. unfold awf in *. cbn in *. congruence. }
+      rewrite El in E. cbn [andb] in E. unfold eqv in E.
+      destruct (ltb (dist (i, (p, pm))) (dist (j, (q, qm)))); [congruence|].
+      destruct (ltb (dist (j, (q, qm))) (dist (i, (p, pm)))); [congruence|]. discriminate.
+  Qed.
+
+  (* the leaders archive of the code (epsilon comparator, Python equality test): after every
+     generation at most `size` members, mutually non-dominated in the Pareto sense *)
+  Theorem leaders_eps size gs :
+    offers_wf (awf m) gs ->
+    Forall (fun a => length a <= size /\
+                     pairwise (fun y z => pareto_compare ltb (acost y) (acost z) = 0) a)
+           (leaders_trace lecmp (aceq ltb) key_leb size [] gs).
+  Proof.
+    intros W. rewrite leaders_trace_ceq.
+    pose proof (leaders_trace_inv lecmp leceq key_leb ledom (awf m) eps_leader_laws size gs []
+                  (Inv_nil leceq ledom (awf m)) W) as F.
+    eapply Forall_impl; [|exact F]. cbn beta. intros a [[Wa P] Ln]. split; [exact Ln|].
+    clear F Ln. induction a as [|y a IH]; [exact I|]. destruct P as [Fy P]. inversion Wa as [|? ? Wy Wa']; subst.
+    split; [|apply IH; assumption].
+    rewrite Forall_forall in *. intros z Hz. apply indep_pareto; auto.
+  Qed.
+End LeadersEps.
+
+(* ---------- leaders archive with the Pareto comparator (what Archive(dominance=ParetoDominance()) gives) ---------- *)
+Section LeadersPareto.
+  Context {T : Type} (ltb : T -> T -> bool) (H : SWO ltb).
+  Variable m : nat.
+  Context {K : Type} (key_leb : K -> @aind T -> @aind T -> bool).
+
+  Theorem leaders_pareto size gs :
+    offers_wf (awf m) gs ->
+    Forall (fun a => length a <= size /\
+                     pairwise (fun y z => pareto_compare ltb (acost y) (acost z) = 0) a)
+           (leaders_trace (acmp ltb) (aceq ltb) key_leb size [] gs).
+  Proof.
+    intros W.
+    pose proof (leaders_trace_inv (acmp ltb) (aceq ltb) key_leb (adom ltb) (awf m) (pareto_arch_laws ltb H m) size gs []
+                  (Inv_nil (aceq ltb) (adom ltb) (awf m)) W) as F.
+    eapply Forall_impl; [|exact F]. cbn beta. intros a [[Wa P] Ln]. split; [exact Ln|].
+    clear F Ln Wa. induction a as [|y a IH]; [exact I|]. destruct P as [Fy P].
+    split; [|apply IH; assumption].
+    eapply Forall_impl; [|exact Fy]. intros z (D1 & D2 & _). unfold adom, acmp in D1, D2.
+    apply Nat.eqb_neq in D1, D2.
+    pose proof (pareto_antisym ltb H (acost y) (acost z)) as A.
+    pose proof (pareto_range ltb H (acost y) (acost z)) as R.
+    destruct (pareto_compare ltb (acost y) (acost z)) as [|[|[|n]]]; cbn in A; try lia; congruence.
+  Qed.
+End LeadersPareto.
+
+(* ---------- binary64: a non-negative (or NaN) half range is not below its negation ---------- *)
+From Coq Require Import Floats.
+From Artap Require Import Base.FloatInst.
+
+Lemma fkey_opp x : PrimFloat.is_nan x = false ->
+  fkey (- x)%float = (let '(a, b, c) := fkey x in (- a, - b, - c))%Z.
+Proof.
+  intros N. unfold fkey. rewrite opp_spec.
+  assert (Prim2SF x <> S754_nan) as NN by (intro E; apply is_nan_spec in E; congruence).
+  destruct (Prim2SF x) as [s|s| |s mm e]; try congruence; try destruct s; cbn; rewrite ?Z.opp_involutive; reflexivity.
+Qed.
+
+Lemma fneg_le (d : float) : fltb d 0%float = false -> fltb d (- d)%float = false.
+Proof.
+  intros Hd. destruct (PrimFloat.is_nan d) eqn:N.
+  - unfold fltb. rewrite N. reflexivity.
+  - destruct (fltb d (- d)%float) eqn:E; [|reflexivity]. exfalso.
+    apply fltb_spec in E. rewrite (fkey_opp d N) in E.
+    assert (Hz : ~ klt (fkey d) (fkey 0%float)) by (rewrite <- fltb_spec; congruence).
+    change (fkey 0%float) with (0, 0, 0)%Z in Hz.
+    destruct (fkey d) as [[a b] c]. unfold klt in *. lia.
+Qed.
+
+Theorem speed_constriction_float (v ub lb : float) :
+  let d := ((ub - lb) / 0x1p+1)%float in
+  let r := speed_constriction fltb PrimFloat.sub PrimFloat.div PrimFloat.opp 0x1p+1%float v ub lb in
+  fltb d 0%float = false ->
+  (fltb r (- d)%float = false /\ fltb d r = false) /\ (r = v \/ r = d \/ r = (- d)%float).
+Proof.
+  cbn zeta. intros Hd.
+  pose proof (speed_constriction_spec fltb fltb_SWO PrimFloat.sub PrimFloat.div PrimFloat.opp 0x1p+1%float v ub lb
+                (fneg_le _ Hd)) as (A & B & C & D).
+  split; [exact A|].
+  unfold half_range in *.
+  destruct (fltb ((ub - lb) / 0x1p+1)%float v) eqn:E1; [right; left; apply B; reflexivity|].
+  destruct (fltb v (- ((ub - lb) / 0x1p+1))%float) eqn:E2; [right; right; apply C; reflexivity|].
+  left. apply D; reflexivity.
+Qed.
+
+(* the bound on the archive size needs nothing about the comparator *)
+Section LeadersBound.
+  Context {C K : Type} (cmp : C -> C -> nat) (ceq : C -> C -> bool) (key_leb : K -> C -> C -> bool).
+  Theorem leaders_trace_bounded size : forall gs a,
+    Forall (fun a' => length a' <= size) (leaders_trace cmp ceq key_leb size a gs).
+  Proof.
+    induction gs as [|g gs IH]; intros a; cbn; constructor; [|apply IH].
+    unfold generation, archive_truncate. rewrite firstn_length. apply Nat.le_min_l.
+  Qed.
+  Theorem generations_bounded size : forall gs a, length a <= size ->
+    length (generations cmp ceq key_leb size a gs) <= size.
+  Proof.
+    induction gs as [|g gs IH]; intros a Ln; cbn; [exact Ln|]. apply IH.
+    unfold generation, archive_truncate. rewrite firstn_length. apply Nat.le_min_l.
+  Qed.
+
+  Variables (dom : C -> C -> bool) (wf : C -> Prop).
+  Hypothesis L : ArchLaws cmp ceq dom wf.
+  Theorem leaders_trace_nondominated size gs : offers_wf wf gs ->
+    Forall (fun a' => pairwise (fun y z => dom y z = false /\ dom z y = false) a')
+           (leaders_trace cmp ceq key_leb size [] gs).
+  Proof.
+    intros W. pose proof (leaders_trace_inv cmp ceq key_leb dom wf L size gs [] (Inv_nil ceq dom wf) W) as F.
+    eapply Forall_impl; [|exact F]. cbn beta. intros a [I _]. apply (Inv_nondominated ceq dom wf). exact I.
+  Qed.
+End LeadersBound.
